@@ -297,6 +297,12 @@ class Interp:
                 r = self.call_method_ast(v, "__len__", [], {})
                 return self.truth(r)
             return z3.BoolVal(True)
+        if isinstance(v, VRec) and getattr(v.t, "dictlike", False):
+            # a dict value is truthy iff it has at least one key
+            keys = [k for k in v.fields if not k.startswith("has_")]
+            if any(("has_" + k) not in v.fields for k in keys):
+                return z3.BoolVal(True)
+            return z3.Or([v.fields["has_" + k].e for k in keys] + [z3.BoolVal(False)])
         if isinstance(v, (VFunc, VClass, VModule, VRec, VUn, VOpaque, VExc, VPath)):
             return z3.BoolVal(True)
         raise Unsupported("truth of %s" % type(v).__name__)
@@ -779,6 +785,28 @@ class Interp:
                 kwargs[kw.arg] = self.ev(kw.value, env)
         return self.call(f, args, kwargs, node=n)
 
+    def run_cut(self, key, env, extra=None):
+        """cut point `key` of the verified contract (`asserts={key: [...]}`): ghost statements are executed, other
+        clauses proved (named obligations) and assumed"""
+        c = self.cur_contract
+        if c is None or not getattr(c, "asserts", None) or len(self.fn_stack) != 1:
+            return
+        for i, cl in enumerate(c.asserts.get(key, [])):
+            if cl.startswith("ghost:"):
+                self.exec_ghost(cl[6:], env, extra=extra)
+                continue
+            self.path.prove(self.eval_spec(cl, env, extra=extra), "%s/assert-after:%s#%d" % (c.short, key, i), "assert", where=cl)
+
+    def ev_Yield(self, n, env):
+        """`yield e` in the verified function itself: the generator's output is not materialised (it may contain
+        heap objects and is produced across loop cuts); instead every yield is a cut point "yield:<source of e>"
+        whose ghost statements (with `_yield` bound to the value) record what the contract talks about."""
+        if len(self.fn_stack) != 1 or self.spec:
+            raise Unsupported("yield outside the verified function")
+        v = self.ev(n.value, env) if n.value is not None else VNone()
+        self.run_cut("yield:" + (ast.unparse(n.value) if n.value is not None else ""), env, extra={"_yield": v})
+        return VNone()
+
     def ev_Lambda(self, n, env):
         return VFunc("lambda", "<lambda>", node=n, module=env.module, closure=env)
 
@@ -976,6 +1004,68 @@ class Interp:
     def spec_exists(self, n, env):
         return self._quant(n, env, False)
 
+    def spec_exists_fn(self, n, env):
+        """exists_fn(p, body): there is a function p: int -> int with body (p is applied as p(j) in body).
+        Assumed (positive): p is a fresh function symbol.  Proved (positive): the disjunction over explicit
+        candidate witnesses -- the contract's `witnesses[p]` lambdas (evaluated over the function's current
+        locals), the permutations produced by sorted()/list.sort() on this path, and the identity; each
+        disjunct implies the existential, so this is sound (possibly incomplete).  Negative occurrences are
+        not supported."""
+        name = n.args[0].id
+        if not self.polarity:
+            raise Unsupported("exists_fn in a negative position")
+        if self.assume_mode:
+            if self.q_ctx:
+                raise Unsupported("exists_fn under a quantifier in an assumed clause")
+            fn = z3.Function(self.path.fresh_name("sk_" + name), z3.IntSort(), z3.IntSort())
+            cands = [fn]
+        else:
+            cands = []
+            c = self.cur_contract
+            top = getattr(self, "top_env", None)
+            for src in (getattr(c, "witnesses", None) or {}).get(name, []) if c is not None else []:
+                try:
+                    cands.append(self.ev(self.ver.parse_spec(src), top))
+                except (Unsupported, PyRaise, SpecUndef):
+                    continue
+            cands.extend(list(getattr(self.path, "fn_witnesses", []))[-3:])
+            cands.append(None)
+        outs = []
+        saved = self.binders.get(name, _MISSING)
+        try:
+            for cand in cands:
+                if cand is None:
+                    f = VFunc("builtin", name, impl=lambda I, args, kw: args[0])
+                elif isinstance(cand, VFunc):
+                    f = cand
+                else:
+                    f = VFunc("builtin", name, impl=lambda I, args, kw, cand=cand: VInt(cand(to_int(args[0]))))
+                self.binders[name] = f
+                try:
+                    outs.append(self.truth(self.ev(n.args[1], env)))
+                except SpecUndef:
+                    continue
+                except Unsupported:
+                    if isinstance(cand, VFunc) and not self.assume_mode:
+                        continue   # a witness hint that mentions a local not bound on this path
+                    raise
+        finally:
+            if saved is _MISSING:
+                self.binders.pop(name, None)
+            else:
+                self.binders[name] = saved
+        if not outs:
+            return VBool(False)
+        if len(outs) == 1:
+            return VBool(outs[0])
+        disj = z3.Or(outs)
+        if not self.assume_mode:
+            # Path.prove1 tries the candidates one at a time before the whole disjunction
+            if not hasattr(self.path, "witness_ors"):
+                self.path.witness_ors = {}
+            self.path.witness_ors[disj.get_id()] = (disj, outs)
+        return VBool(disj)
+
     def spec_implies(self, n, env):
         pol = self.polarity
         self.polarity = False
@@ -1163,6 +1253,15 @@ class Interp:
         if isinstance(s.value, ast.Constant):
             return
         self.ev(s.value, env)
+        c = self.cur_contract
+        if c is not None and getattr(c, "asserts", None) and len(self.fn_stack) == 1 and isinstance(s.value, ast.Call):
+            # cut point after an expression statement `x.m(...)`: asserts key "call:x.m"
+            key = "call:" + ast.unparse(s.value.func)
+            for i, cl in enumerate(c.asserts.get(key, [])):
+                if cl.startswith("ghost:"):
+                    self.exec_ghost(cl[6:], env)
+                    continue
+                self.path.prove(self.eval_spec(cl, env), "%s/assert-after:%s#%d" % (c.short, key, i), "assert", where=cl)
 
     def ex_Pass(self, s, env):
         pass
@@ -1397,6 +1496,11 @@ class Interp:
 
     def ex_FunctionDef(self, s, env):
         f = VFunc("ast", s.name, node=s, module=env.module, closure=env)
+        outer = self.fn_stack[-1] if getattr(self, "fn_stack", None) else None
+        oq = getattr(outer, "qual", None)
+        if oq is not None and "#" not in oq:
+            # nested function: addressable by contracts as 'path.py:outer.<locals>.inner'
+            f.qual = "%s.<locals>.%s" % (oq, s.name)
         env.set(s.name, f)
 
     def ex_Assert(self, s, env):
@@ -1719,6 +1823,10 @@ class Interp:
         for p in paths:
             try:
                 node = self.ver.parse_spec(p) if isinstance(p, str) else p
+                from .modset import _root
+                rn = _root(node)
+                if rn is not None and rn in names and env.lookup(rn) is None:
+                    continue    # a container local first bound inside the loop body: nothing to havoc yet
                 saved = self.spec
                 self.spec = True
                 try:
@@ -1738,6 +1846,45 @@ class Interp:
                     self.havoc_inplace(v, "lm")
             except Unsupported:
                 raise
+        self.havoc_ghost_targets(s, env)
+
+    def havoc_ghost_targets(self, s, env):
+        """ghost variables written by the `ghost:` statements of the verified contract's cut points
+        (`asserts={"x": [...], "call:x.m": [...]}`) are havoc'd at the cut of every loop whose body contains such a
+        cut point syntactically (ghost variables written by registered `effects` are handled in havoc_loop_targets)."""
+        genv = getattr(self, "ghost_env", None)
+        cc = self.cur_contract
+        if genv is None or not genv.vars or cc is None or len(self.fn_stack) != 1:
+            return
+        writes = self.ver.ghost_cut_writes(cc)
+        if not writes:
+            return
+        from .modset import _target_names
+        cuts = set()
+        for st in list(s.body) + list(s.orelse):
+            for x in ast.walk(st):
+                if isinstance(x, (ast.Assign, ast.AnnAssign)):
+                    for t in getattr(x, "targets", [getattr(x, "target", None)]):
+                        if t is not None:
+                            _target_names(t, cuts)
+                elif isinstance(x, ast.Expr) and isinstance(x.value, ast.Call):
+                    cuts.add("call:" + ast.unparse(x.value.func))
+                elif isinstance(x, ast.Yield):
+                    cuts.add("yield:" + (ast.unparse(x.value) if x.value is not None else ""))
+        names = set()
+        for key, ns in writes.items():
+            if key in cuts:
+                names |= ns
+        for nm in sorted(names):
+            cur = genv.vars.get(nm)
+            if cur is None:
+                continue
+            if isinstance(cur, (VSeq, VMap, VSet, VObj, VDictRec)):
+                self.havoc_inplace(cur, "gh_" + nm)
+            elif isinstance(cur, (VFunc, VClass, VModule, VOpaque)):
+                continue
+            else:
+                genv.vars[nm] = self.fresh_value(typeof(cur), "gh_" + nm)
 
     def ex_For(self, s, env):
         from . import builtins as B
